@@ -1,12 +1,35 @@
 from check import run_diff_property
 import lib
 
+
+def value_or_absent(o, i, m):
+    """C05 allows, under each fingerprint header name, exactly the proxy's value OR no header at all (whether a
+    fingerprint can be computed is C01-C03's business); what it forbids is anything else, notably a client value"""
+    if not o.startswith('e2e'):
+        return False
+    it, mt = i.split(' '), m.split(' ')
+    if len(it) != len(mt):
+        return False
+    for a, b in zip(it, mt):
+        if a == b:
+            continue
+        if not (a.startswith('R') and b.startswith('R')):
+            return False
+        pa, pb = a.split(';'), b.split(';')
+        if len(pa) != len(pb) or pa[0] != pb[0]:
+            return False
+        for x, y in zip(pa[1:], pb[1:]):
+            if x != y and x.split('=', 1)[1] != '-':
+                return False
+    return True
+
 CFG = dict(
     streams=[('rw', 2500, 40000), ('e2e', 150, 2500)],
     oracle_ops={'rwspec05', 'e2e'},
     twophase_ops={'e2e'},
     project={'e2e': lib.proj_e2e({'ja3', 'ja4', 'h2'})},
     ops_filter={'rw', 'rwspec05', 'e2e'},
+    accept=value_or_absent,
     rule=("HTTPHandler.ServeHTTP in-process with a recording transport: default three injectors plus 0-2 custom ones (incl. a "
           "repeated name and odd spellings), each scripted to value / empty value / error, crossed with client header lines "
           "under every injected name in random letter case, 0-2 repetitions, empty values, plus hop-by-hop, forwarding and "
